@@ -616,6 +616,8 @@ func c10History(tmproot string, r *rand.Rand, size int, nW, nR, nP, perWriter in
 	var hist []c10hev
 	add := func(e c10hev) { mu.Lock(); hist = append(hist, e); mu.Unlock() }
 	now := func() int64 { return time.Now().UnixNano() }
+	// a committed sibling key in the same directory, listed throughout by the lister below
+	sibErr := s.Store(ctx, "d/z", []byte("sibling"))
 	// initial value: id total+1
 	t0 := now()
 	if err := s.Store(ctx, "d/k", val(total+1)); err != nil {
@@ -663,6 +665,52 @@ func c10History(tmproot string, r *rand.Rand, size int, nW, nR, nP, perWriter in
 		outs = append(outs, &ob)
 	}
 	var rg sync.WaitGroup
+	lists, listMissing, listErrs := 0, 0, 0
+	if size >= 70000 && sibErr == nil { // List racing the in-flight Stores of big values: no committed key may be missing
+		rg.Add(1)
+		go func() {
+			defer rg.Done()
+			for n := 0; ; n++ {
+				mu.Lock()
+				st := stop
+				mu.Unlock()
+				prefix, rec := "d", n%2 == 0
+				if n%3 == 2 {
+					prefix = ""
+					rec = true
+				}
+				l, err := s.List(ctx, prefix, rec)
+				miss := 0
+				if err == nil {
+					for _, k := range []string{"d/z", "d/k"} {
+						found := false
+						for _, x := range l {
+							if x == k {
+								found = true
+							}
+						}
+						if !found {
+							miss++
+						}
+					}
+				}
+				mu.Lock()
+				if err != nil {
+					// filepath.Walk lstats the names it read: a temp file renamed away in between makes the
+					// walk, and List, fail with ENOENT - reported to the caller, no verdict here
+					listErrs++
+				} else {
+					lists++
+					listMissing += miss
+				}
+				mu.Unlock()
+				if st != 0 {
+					return
+				}
+				time.Sleep(time.Duration(200+rand.Intn(800)) * time.Microsecond)
+			}
+		}()
+	}
 	for q := 0; q < nR; q++ {
 		rg.Add(1)
 		go func() {
@@ -715,7 +763,7 @@ func c10History(tmproot string, r *rand.Rand, size int, nW, nR, nP, perWriter in
 	}
 	// temp files must not be left behind by completed Stores
 	ents, _ := os.ReadDir(filepath.Join(dir, "d"))
-	info := map[string]any{"dirents_after": len(ents)}
+	info := map[string]any{"dirents_after": len(ents), "lists": lists, "list_missing": listMissing, "list_errors": listErrs}
 	if len(failed) > 0 {
 		if len(failed) > 3 {
 			failed = failed[:3]
@@ -885,17 +933,21 @@ func c10Fault(tmproot string, limit, big, small int) (hist []c10hev, final []int
 
 // ---------------------------------------------------------------- kind 3: SIGKILL
 
-func c10Crash(tmproot string, r *rand.Rand, size int, delay time.Duration) (acked, started, loaded, temps int, err error) {
+func c10Crash(tmproot string, r *rand.Rand, size int, delay time.Duration) (acked, started, loaded, temps, missing int, err error) {
 	dir, e := os.MkdirTemp(tmproot, "crash")
 	if e != nil {
-		return 0, 0, 0, 0, e
+		return 0, 0, 0, 0, 0, e
 	}
 	defer os.RemoveAll(dir)
+	// a committed sibling key in the same directory: it must stay listed whatever the writer leaves behind
+	if e := (&certmagic.FileStorage{Path: dir}).Store(context.Background(), "d/z", []byte("sibling")); e != nil {
+		return 0, 0, 0, 0, 0, e
+	}
 	cmd := exec.Command(os.Args[0], "C10", "child", "0", dir, fmt.Sprintf("crashwriter:%d", size))
 	pr, pw, _ := os.Pipe()
 	cmd.Stdout = pw
 	if e := cmd.Start(); e != nil {
-		return 0, 0, 0, 0, e
+		return 0, 0, 0, 0, 0, e
 	}
 	pw.Close()
 	lines := make(chan string, 1<<16)
@@ -943,8 +995,37 @@ func c10Crash(tmproot string, r *rand.Rand, size int, delay time.Duration) (acke
 	}
 	ents, _ := os.ReadDir(filepath.Join(dir, "d"))
 	for _, en := range ents {
-		if en.Name() != "k" {
+		if en.Name() != "k" && en.Name() != "z" {
 			temps++
+		}
+	}
+	// List after the crash: every committed key is listed (a leftover temp file may or may not show)
+	want := []string{"d/z"}
+	if loaded > 0 {
+		want = append(want, "d/k")
+	}
+	has := func(l []string, k string) bool {
+		for _, x := range l {
+			if x == k {
+				return true
+			}
+		}
+		return false
+	}
+	for _, q := range []struct {
+		prefix string
+		rec    bool
+		keys   []string
+	}{{"d", false, want}, {"d", true, want}, {"", true, append([]string{"d"}, want...)}, {"", false, []string{"d"}}} {
+		l, e := s.List(context.Background(), q.prefix, q.rec)
+		if e != nil {
+			missing += len(q.keys)
+			continue
+		}
+		for _, k := range q.keys {
+			if !has(l, k) {
+				missing++
+			}
 		}
 	}
 	return
@@ -1120,6 +1201,14 @@ func runC10(tier string, seed int64, outdir string, replay string) error {
 		}
 		w.Add(emit.Case{Desc: map[string]any{"kind": "history", "class": "concurrent-history", "size": c.size}, In: c, Obs: map[string]any{"info": info, "first_events": show},
 			Wire: e.String(), Nontrivial: len(distinct) >= 3, Key: fmt.Sprint("hist", c)})
+		if n, _ := info["lists"].(int); n > 0 {
+			miss, _ := info["list_missing"].(int)
+			l := &emit.Enc{}
+			l.Int(5).Int(n).Int(miss)
+			w.Hist("list_during_stores")
+			w.Add(emit.Case{Desc: map[string]any{"kind": "list-race", "class": "list-during-stores", "size": c.size}, In: c,
+				Obs: map[string]any{"lists_without_error": n, "committed_keys_missing": miss, "lists_that_returned_an_error": info["list_errors"]}, Wire: l.String(), Nontrivial: n >= 5, Key: fmt.Sprint("listrace", c)})
+		}
 	}
 
 	// ---- kind 4 (+ a kind 2 history): write faults in the middle of Store
@@ -1177,6 +1266,7 @@ func runC10(tier string, seed int64, outdir string, replay string) error {
 	type cres struct {
 		size                           int
 		acked, started, loaded, temps int
+		missing                        int
 		err                            error
 	}
 	cch := make(chan cres, nCrash)
@@ -1187,8 +1277,8 @@ func runC10(tier string, seed int64, outdir string, replay string) error {
 		go func() {
 			sem <- struct{}{}
 			defer func() { <-sem }()
-			a, s, l, t, err := c10Crash(tmproot, r, size, delay)
-			cch <- cres{size, a, s, l, t, err}
+			a, s, l, t, m, err := c10Crash(tmproot, r, size, delay)
+			cch <- cres{size, a, s, l, t, m, err}
 		}()
 	}
 	for i := 0; i < nCrash; i++ {
@@ -1197,12 +1287,13 @@ func runC10(tier string, seed int64, outdir string, replay string) error {
 			return c.err
 		}
 		e := &emit.Enc{}
-		e.Int(3).Int(c.acked).Int(c.started).Int(c.loaded)
+		e.Int(3).Int(c.acked).Int(c.started).Int(c.loaded).Int(c.missing)
+		w.Hist(fmt.Sprintf("crash_committed_keys_missing_from_list=%d", c.missing))
 		w.Hist(fmt.Sprintf("crash_temp_left=%v", c.temps > 0))
 		w.Hist(fmt.Sprintf("crash_value=%s", map[bool]string{true: "new", false: "old"}[c.loaded == c.started && c.started != c.acked]))
 		w.Add(emit.Case{Desc: map[string]any{"kind": "crash", "class": "sigkill-writer", "size": c.size},
 			In:  map[string]any{"size": c.size},
-			Obs: map[string]any{"acked": c.acked, "started": c.started, "loaded": c.loaded, "temp_files_left": c.temps},
+			Obs: map[string]any{"acked": c.acked, "started": c.started, "loaded": c.loaded, "temp_files_left": c.temps, "committed_keys_missing_from_list": c.missing},
 			Wire: e.String(), Nontrivial: c.started >= 2, Key: fmt.Sprint("crash", i)})
 	}
 	w.Meta.Rule = "op sequences with >= 3 op kinds that delete a prefix with children, list >= 2 keys or touch a key below a file; every strace case; histories in which readers saw >= 3 distinct values; kills after at least one completed Store"
